@@ -255,13 +255,14 @@ def run_check(pid, tier, seed, replay, t0, debug=False):
     # 1. regenerate Gen/*.v from the live source
     try:
         with quiet():
-            from . import gen_tables, gen_lif
+            from . import gen_tables, gen_lif, gen_evloop
             gen_tables.main()
-            if gen_lif.main not in getattr(mod, "GENERATORS", []):
-                try:                      # keep the other generated file fresh too (a stale fail-closed stub of an
-                    gen_lif.main()        # earlier run must not linger); its failure concerns C20 only
-                except Exception:
-                    pass
+            for other in (gen_lif.main, gen_evloop.main):
+                if other not in getattr(mod, "GENERATORS", []):
+                    try:                  # keep the other generated files fresh too (a stale fail-closed stub of an
+                        other()           # earlier run must not linger); their failure concerns C20 only
+                    except Exception:
+                        pass
             for g in getattr(mod, "GENERATORS", []):
                 g()
     except Exception as e:
